@@ -8,6 +8,7 @@
    g.missingIssuerNode[raw issuer] (edge set) g_missing : (raw issuer, fingerprint) pairs
    n.childrenBySubjectAndKey[k] (edge set)    g_children : (n, k, fingerprint) triples
    n.parentsBySubjectAndKey[k]  (edge set)    g_parents  : (n, k, fingerprint) triples
+   n.rootEdges (edge set)                     g_roots    : (n, fingerprint) pairs
    addOrPanic                                 the boolean returned next to the new state
 
    Pointers to edges are modelled by the certificate fingerprint that keys
@@ -36,10 +37,12 @@ Record graph := mkGraph {
   g_edges    : list edge;
   g_missing  : list miss;
   g_children : list trip;
-  g_parents  : list trip
+  g_parents  : list trip;
+  g_roots    : list (node * N)
 }.
 
-Definition empty_graph : graph := mkGraph [] [] [] [] [].
+Definition empty_graph : graph := mkGraph [] [] [] [] [] [].
+Definition rt_eqb (a b : node * N) : bool := node_eqb (fst a) (fst b) && N.eqb (snd a) (snd b).
 
 Definition has_fp (f : N) (es : list edge) : bool := existsb (fun e => N.eqb (e_fp e) f) es.
 Definition find_edge (f : N) (es : list edge) : option edge := find (fun e => N.eqb (e_fp e) f) es.
@@ -85,7 +88,7 @@ Definition add_cert (g : graph) (c : cert) : graph * bool :=
     | Some p => existsb (trip_eqb (p, nd, c_fp c)) (g_children g) || existsb (trip_eqb (nd, p, c_fp c)) (g_parents g)
     | None => existsb (miss_eqb (c_iss c, c_fp c)) (g_missing g)
     end in
-  if negb isnew then (mkGraph nodes1 edges1 missing1 children1 parents1, panic1) else
+  if negb isnew then (mkGraph nodes1 edges1 missing1 children1 parents1 (g_roots g), panic1) else
   (* the node is new: does it issue an edge parked under its name? *)
   let cands := filter (fun m => N.eqb (fst m) (c_subj c)) missing1 in
   let fixed := map snd (filter (fixable nd edges1) cands) in
@@ -93,15 +96,18 @@ Definition add_cert (g : graph) (c : cert) : graph * bool :=
   let newc := map (fun f => (nd, child_of edges1 f, f)) fixed in
   let newp := map (fun f => (child_of edges1 f, nd, f)) fixed in
   let missing2 := filter (fun m => negb (N.eqb (fst m) (c_subj c) && memN (snd m) fixed)) missing1 in
-  (mkGraph nodes1 edges2 missing2 (children1 ++ newc) (parents1 ++ newp),
+  (mkGraph nodes1 edges2 missing2 (children1 ++ newc) (parents1 ++ newp) (g_roots g),
    panic1 || add_all_panics trip_eqb newc children1 || add_all_panics trip_eqb newp parents1).
 
-(* AddRoot: AddCert, then FindEdge(fingerprint).root = true *)
+(* AddRoot: AddCert, then FindEdge(fingerprint).root = true, and the edge is
+   entered into its child's rootEdges unless it is there already *)
 Definition add_root (g : graph) (c : cert) : graph * bool :=
   let '(g1, p) := add_cert g c in
+  let entry := (child_of (g_edges g1) (c_fp c), c_fp c) in
   (mkGraph (g_nodes g1)
            (map (fun e => if N.eqb (e_fp e) (c_fp c) then set_root e else e) (g_edges g1))
-           (g_missing g1) (g_children g1) (g_parents g1),
+           (g_missing g1) (g_children g1) (g_parents g1)
+           (if existsb (rt_eqb entry) (g_roots g1) then g_roots g1 else g_roots g1 ++ [entry]),
    p || negb (has_fp (c_fp c) (g_edges g1))).   (* FindEdge = nil would be a nil dereference *)
 
 Inductive op := AddCert (c : cert) | AddRoot (c : cert).
@@ -128,21 +134,23 @@ Definition code_edge (e : edge) : N :=
 Definition code_trip (t : trip) : N :=
   ((code_node (fst (fst t)) * M + code_node (snd (fst t))) * M + snd t)%N.
 Definition code_miss (m : miss) : N := (fst m * M + snd m)%N.
+Definition code_rt (x : node * N) : N := (code_node (fst x) * M + snd x)%N.
 
 (* dump printed by the harness: nodes in creation order; the sets as lists in any order *)
 Definition eobs := (N * option node * node * bool)%type.
 Definition code_eobs (e : eobs) : N :=
   let '(f, i, c, r) := e in
   ((((f * M) + code_onode i) * M + code_node c) * 2 + (if r then 1 else 0))%N.
-Definition dump := (list node * list eobs * list miss * list trip * list trip)%type.
+Definition dump := (list node * list eobs * list miss * list trip * list trip * list (node * N))%type.
 
 Definition dump_eqb (g : graph) (d : dump) : bool :=
-  let '(ns, es, ms, cs, ps) := d in
+  let '(ns, es, ms, cs, ps, rs) := d in
   list_eqb node_eqb (g_nodes g) ns &&
   list_eqb N.eqb (sortN (map code_edge (g_edges g))) (sortN (map code_eobs es)) &&
   list_eqb N.eqb (sortN (map code_miss (g_missing g))) (sortN (map code_miss ms)) &&
   list_eqb N.eqb (sortN (map code_trip (g_children g))) (sortN (map code_trip cs)) &&
-  list_eqb N.eqb (sortN (map code_trip (g_parents g))) (sortN (map code_trip ps)).
+  list_eqb N.eqb (sortN (map code_trip (g_parents g))) (sortN (map code_trip ps)) &&
+  list_eqb N.eqb (sortN (map code_rt (g_roots g))) (sortN (map code_rt rs)).
 
 (* ---- checksums: h' = (33 h + x + 1) mod 2^32, computed in the same traversal order by the harness ---- *)
 Definition mix (h x : N) : N := N.land (h * 33 + x + 1) 4294967295%N.
@@ -166,7 +174,8 @@ Definition hash_graph (h : N) (g : graph) : N :=
   let h3 := fold_left (fun h m => mix (mix h (fst m)) (snd m)) (sort_by code_miss (g_missing g)) (mix h2 13) in
   let ht := fun h (t : trip) => mix (mix_node (mix_node h (fst (fst t))) (snd (fst t))) (snd t) in
   let h4 := fold_left ht (sort_by code_trip (g_children g)) (mix h3 14) in
-  fold_left ht (sort_by code_trip (g_parents g)) (mix h4 15).
+  let h5 := fold_left ht (sort_by code_trip (g_parents g)) (mix h4 15) in
+  fold_left (fun h x => mix (mix_node h (fst x)) (snd x)) (sort_by code_rt (g_roots g)) (mix h5 16).
 
 (* ---- correspondence cases.  Ops refer to the certificates of a universe by index. ---- *)
 Definition uop := (bool * nat)%type.     (* (AddRoot?, index) *)
